@@ -47,6 +47,7 @@ def setCfg (st : DSt) (kv : String) : Option DSt :=
     | "resp.lineTerm" => if v == "crlf" then some st else none
     | "resp.crlfAfterBulk" => if v == "true" then some st else none
     | "gw.commands" => if v == "PING,ECHO,GET,SET,DEL,MGET,MSET,INCR,DECR,INCRBY,DECRBY,EXISTS,QUIT" then some st else none
+    | "gw.overflowCheck" => if v == "range-before-add" then some st else none
     | "gw.nameFold" => if v == "upper" then some st else none
     | "gw.incrEmptyAsZero" => do let b ← boolOfString? v; pure { st with gc := { st.gc with incrEmptyAsZero := b } }
     | "gw.intParseLax" => do let b ← boolOfString? v; pure { st with gc := { st.gc with intParseLax := b } }
